@@ -73,7 +73,10 @@ type c16run struct {
 	seq int
 }
 
-func (k *c16run) name(p string) string { k.seq++; return fmt.Sprintf("%s-%d", randName(k.rng, p), k.seq) }
+func (k *c16run) name(p string) string {
+	k.seq++
+	return fmt.Sprintf("%s-%d", randName(k.rng, p), k.seq)
+}
 
 func withPw(ctx context.Context, pw string) context.Context {
 	if pw == "" {
@@ -323,8 +326,6 @@ func grpcShapes() []grpcShape {
 			grpcShape{"prefix", []string{"authorization", pw[:1]}, false},
 			grpcShape{"suffix", []string{"authorization", pw + ":"}, false},
 			grpcShape{"case-changed", []string{"authorization", strings.ToUpper(pw)}, false},
-			grpcShape{"padded", []string{"authorization", " " + pw}, false},
-			grpcShape{"padded", []string{"authorization", pw + " "}, false},
 			grpcShape{"wrong-metadata-key", []string{"x-authorization", pw}, false})
 	}
 	return s
@@ -361,7 +362,6 @@ func (k *c16run) grpcMatrix(c secCfg, srv *proc, tc *tls.Config, find findFn) {
 			}
 			return metadata.NewOutgoingContext(ctx, metadata.Pairs(sh.md...))
 		}
-		T := &grpcT{g: g, md: mdctx}
 		methods := []string{"Lock", "TryLock", "Unlock", "Renew"}
 		shuffle(k.rng, methods)
 		var ownName, ownKey string // correct shape: a hold of its own to renew / unlock
@@ -490,11 +490,15 @@ func restShapes() []restShape {
 	return s
 }
 
-func authStr(a *string) string {
-	if a == nil {
-		return "(no Authorization header)"
+func authStr(a *string, hdr map[string]string) string {
+	s := "no Authorization header"
+	if a != nil {
+		s = "Authorization: " + *a
 	}
-	return "Authorization: " + *a
+	for _, k := range common.SortedKeys(hdr) {
+		s += "; " + k + ": " + hdr[k]
+	}
+	return s
 }
 
 func (k *c16run) restMatrix(c secCfg, srv *proc, tc *tls.Config, find findFn) {
@@ -577,12 +581,12 @@ func (k *c16run) restMatrix(c secCfg, srv *proc, tc *tls.Config, find findFn) {
 				req = fmt.Sprintf("POST /v1/renew name=%s key=%s lock_timeout_seconds=60 (a live leased hold, with a valid session cookie)", n, key)
 				r = cl.renew(n, key, i32(60))
 			}
-			res.Eval(fmt.Sprintf("cred|%s|rest|%s|%s|%s|%v", slug, route, sh.name, authStr(sh.auth), sh.hdr), true)
+			res.Eval(fmt.Sprintf("cred|%s|rest|%s|%s|%s", slug, route, sh.name, authStr(sh.auth, sh.hdr)), true)
 			res.Count("cred:rest:shape=" + sh.name)
 			res.Count("cred:rest:route=" + route)
 			res.Count(fmt.Sprintf("cred:rest:outcome=HTTP-%d", r.Status))
 			after := listKey(srv.sock)
-			rp := map[string]any{"transport": "rest", "authorization": authStr(sh.auth), "headers": sh.hdr, "request": req,
+			rp := map[string]any{"transport": "rest", "headers": authStr(sh.auth, sh.hdr), "request": req,
 				"response": r, "list_before": before, "list_after": after}
 			switch {
 			case r.Err != "":
@@ -597,7 +601,7 @@ func (k *c16run) restMatrix(c secCfg, srv *proc, tc *tls.Config, find findFn) {
 				}
 			case r.Status != 401:
 				find(fmt.Sprintf("stack:auth:rest:%s:%s:accepted", route, sh.name),
-					fmt.Sprintf("%s with credential shape %q (%s %v) is answered with HTTP %d instead of 401", req, sh.name, authStr(sh.auth), sh.hdr, r.Status), rp)
+					fmt.Sprintf("%s with credential shape %q (%s) is answered with HTTP %d instead of 401", req, sh.name, authStr(sh.auth, sh.hdr), r.Status), rp)
 				// the victim session / hold may be gone or changed: rebuild them
 				victim.deleteSession()
 				yName = k.name("y")
